@@ -30,7 +30,7 @@ type sstDmgTable struct {
 	desc         string
 }
 
-func sstDmgMake(r *Rng, dir string, tier string) (*sstDmgTable, error) {
+func sstDmgMake(r *Rng, dir string, tier string, idx int) (*sstDmgTable, error) {
 	t := &sstDmgTable{dcomp: r.Intn(4), icomp: 0}
 	if r.Chance(35) {
 		t.dcomp = 0
@@ -40,6 +40,23 @@ func sstDmgMake(r *Rng, dir string, tier string) (*sstDmgTable, error) {
 	}
 	n := 1 + r.Intn(4)
 	seen := map[string]bool{}
+	// the empty key is legal, sorts first and comes back from protobuf as a nil key: the first four cases of
+	// every run hold it (written as empty slice / as nil) next to other keys with non-empty values, one case
+	// per data compression type; a quarter of the other cases hold it too
+	if idx < 4 || r.Chance(25) {
+		if idx < 4 {
+			t.dcomp = idx
+			if n < 2 {
+				n = 2
+			}
+		}
+		var k []byte
+		if idx%2 == 0 {
+			k = []byte{}
+		}
+		seen[""] = true
+		t.kvs = append(t.kvs, sstKV{k, r.Bytes(2 + r.Intn(10))})
+	}
 	for len(t.kvs) < n {
 		k := r.Bytes(1 + r.Intn(4))
 		if seen[string(k)] {
@@ -48,6 +65,8 @@ func sstDmgMake(r *Rng, dir string, tier string) (*sstDmgTable, error) {
 		seen[string(k)] = true
 		var v []byte
 		switch c := r.Intn(100); {
+		case idx < 4:
+			v = r.Bytes(3 + r.Intn(16))
 		case c < 6:
 			v = nil
 		case c < 10:
@@ -175,7 +194,7 @@ func runSstDmg(res *Result, drv *Driver, seed uint64, n int, tier string, only i
 		if err := os.Mkdir(dir, 0o755); err != nil {
 			return err
 		}
-		t, err := sstDmgMake(r, dir, tier)
+		t, err := sstDmgMake(r, dir, tier, idx)
 		if err != nil {
 			return err
 		}
